@@ -9,7 +9,7 @@ cmake -G Ninja -S "$SRC" -B "$D" -DBUILD_TESTS=ON -DBUILD_DOC=OFF -DCMAKE_BUILD_
 cmake --build "$D" -j16 >"$D/build.log" 2>&1 || { tail -50 "$D/build.log"; echo "BASELINE: build failed"; exit 2; }
 ctest --test-dir "$D" -j8 --timeout 900 --output-junit "$D/junit.xml" >"$D/ctest.log" 2>&1
 CT=$?
-"$D/tests/tests" --gtest_output=xml:"$D/gtest.xml" >"$D/gtest.log" 2>&1
+timeout 900 "$D/tests/tests" --gtest_output=xml:"$D/gtest.xml" >"$D/gtest.log" 2>&1
 python3 - "$D" "$CT" <<'P'
 import sys, json, xml.etree.ElementTree as ET
 d, ct = sys.argv[1], int(sys.argv[2])
